@@ -62,11 +62,65 @@ def claimLoop (cap : Nat) : Nat → List Bool → Nat
       if allowNewClaim owned cap then claimLoop cap (owned + 1) rest else owned
     else claimLoop cap owned rest
 
+/-- Ordinals of a block covered by a reservation (IPv4 addresses as numbers; a reservation
+CIDR is the range `start, len`): the CIDR → ordinal step of `addrFilter.MatchesIP`. -/
+def inRanges (ranges : List (Nat × Nat)) (a : Nat) : Bool :=
+  ranges.any (fun r => r.1 ≤ a && a < r.1 + r.2)
+
+def resvOrds (ranges : List (Nat × Nat)) (base size : Nat) : List Nat :=
+  (List.range size).filter (fun o => inRanges ranges (base + o))
+
+/-- The static world of a C20 run. -/
+structure Env20 where
+  poolOf : Nat → Nat        -- block ↦ pool id
+  base : Nat → Nat          -- block ↦ first address
+  size : Nat → Nat          -- block ↦ number of addresses
+  ranges : List (Nat × Nat) -- reservations
+
+/-- The AutoAssign request a thread is executing: the pools `allowedPools` selected for it. -/
+structure Req where
+  allowed : List Nat
+  host : Nat
+  strict : Bool
+
+/-- What `autoAssign` is given by its caller, as a guard on the model's events: the block lies
+in a pool selected for the request, the reserved ordinals handed to the scan are the
+block's reserved ordinals, and under strict affinity the affinity check is on. -/
+def guard20 (env : Env20) (req : Nat → Option Req) : Ev → Bool
+  | .call c =>
+    match c.key, c.pl, req c.t with
+    | .blk b, .blkRmw _ (.assign _ _ rv) _, some r =>
+      r.allowed.contains (env.poolOf b) && rv == resvOrds env.ranges (env.base b) (env.size b) &&
+        (!r.strict || c.own == some r.host)
+    | _, _, _ => true
+  | _ => true
+
 /-! ### driver -/
 
 structure DSt where
   cas : St
   pools : List Pool
+  bpool : List Nat := []
+  bbase : List Nat := []
+  bsize : List Nat := []
+  ranges : List (Nat × Nat) := []
+  zones : List Nat := []
+  strict : Bool := false
+  reqs : List (Nat × Req) := []
+
+def DSt.env (d : DSt) : Env20 :=
+  { poolOf := fun b => d.bpool.getD b 0, base := fun b => d.bbase.getD b 0, size := fun b => d.bsize.getD b 0,
+    ranges := d.ranges }
+
+def DSt.req (d : DSt) (t : Nat) : Option Req := (d.reqs.find? (fun p => p.1 == t)).map (·.2)
+
+def parseRanges (s : String) : List (Nat × Nat) :=
+  if s == "-" || s == "" then [] else
+  (s.splitOn ",").filterMap (fun p => match p.splitOn ":" with
+    | [a, b] => match a.toNat?, b.toNat? with
+      | some a, some b => some (a, b)
+      | _, _ => none
+    | _ => none)
 
 def parseUse : String → Option Use
   | "W" => some .workload | "T" => some .tunnel | "L" => some .lb | _ => none
@@ -84,9 +138,31 @@ def parsePool (ws : List String) : Option Pool :=
 
 def step (d : DSt) (line : String) : DSt × String :=
   match words line with
-  | "new" :: _ =>
+  | "new" :: rest =>
     let (c, o) := driverStep C19.chk d.cas line
-    ({ cas := c, pools := [] }, o)
+    ({ cas := c, pools := [],
+       bpool := ((kvOf rest "bpool").bind parseNats).getD [],
+       bbase := ((kvOf rest "bbase").bind parseNats).getD [],
+       bsize := ((kvOf rest "bsz").bind parseNats).getD [],
+       ranges := parseRanges ((kvOf rest "rrange").getD "-"),
+       zones := ((kvOf rest "zones").bind parseNats).getD [],
+       strict := kvOf rest "strict" == some "1" }, o)
+  | "begin" :: t :: "autoassign" :: rest =>
+    let (c, o) := driverStep C19.chk d.cas line
+    match t.toNat?, kvNat rest "host" with
+    | some t, some host =>
+      let use := if kvOf rest "use" == some "T" then Use.tunnel else Use.workload
+      let req := ((kvOf rest "req").bind parseNats).getD []
+      let team := (kvNat rest "ns").getD 0
+      let allowed := (allowedPools d.pools req (d.zones.getD host 0) team use).getD []
+      ({ d with cas := c, reqs := (t, { allowed := allowed, host := host, strict := d.strict }) :: d.reqs }, o)
+    | _, _ => ({ d with cas := c }, o)
+  | "step" :: _ =>
+    let (c, o) := driverStep C19.chk d.cas line
+    let g := match parseStep (words line) with
+      | some cl => guard20 d.env d.req (.call cl)
+      | none => true
+    ({ d with cas := c }, if g then o else o ++ " GUARD20")
   | "pool" :: rest =>
     match parsePool rest with
     | some p => ({ d with pools := d.pools ++ [p] }, "ok")
